@@ -64,6 +64,9 @@ def run(ctx, canary=False):
         forced = [("remove#%d (weight %s)" % (i, recs[i][-1]), recs[:i] + recs[i + 1:]) for i in (1, 2, 0)]
         scs.append({"mech": name, "params": p, "attrs": ["a", "b", "c"], "sizes": [2, 3, 2], "records": recs, "seed": rng.randrange(10 ** 6),
                     "forced_neighbours": forced, "only_forced": True, "weighted": True})
+    # AIM handed the caller's random source (prng=...)
+    scs.append({"mech": "AIM", "params": {"epsilon": 3.0, "delta": 1e-6, "rounds": 3, "prng": True}, "attrs": ["a", "b", "c"], "sizes": [2, 3, 2],
+                "records": [[rng.randrange(2), rng.randrange(3), rng.randrange(2)] for _ in range(6)], "seed": rng.randrange(10 ** 6)})
     # AIM with declared structural zeros; the neighbours put records into a declared-impossible cell
     for _ in range(2):
         p = {"epsilon": 3.0, "delta": 1e-6, "rounds": 4, "structural_zeros": {"a,b": [[0, 2], [1, 0]]}}
